@@ -130,7 +130,7 @@ impl Default for Options {
 
 /// CTAP versions supported
 #[expect(non_camel_case_types)]
-#[derive(Debug, Serialize, Deserialize, PartialEq, Eq)]
+#[derive(Debug, Serialize, PartialEq, Eq)]
 pub enum Version {
     /// Universal 2nd Factor version 1.2
     U2F_V2,
@@ -141,8 +141,25 @@ pub enum Version {
     Unknown(String),
 }
 
+// Deserializing through the derived untagged variant makes serde buffer the value first, reserving
+// memory by the lengths declared in the input once per nesting level. A version is a plain string,
+// so read it as one.
+impl<'de> Deserialize<'de> for Version {
+    fn deserialize<D>(de: D) -> Result<Self, D::Error>
+    where
+        D: serde::Deserializer<'de>,
+    {
+        let value = String::deserialize(de)?;
+        Ok(match value.as_str() {
+            "U2F_V2" => Self::U2F_V2,
+            "FIDO_2_0" => Self::FIDO_2_0,
+            _ => Self::Unknown(value),
+        })
+    }
+}
+
 /// CTAP extensions supported by the authenticator
-#[derive(Debug, Serialize, Deserialize, PartialEq, Eq)]
+#[derive(Debug, Serialize, PartialEq, Eq)]
 pub enum Extension {
     /// The authenticator supports the [`hmac-secret`] extension
     ///
@@ -162,6 +179,22 @@ pub enum Extension {
     /// The authenticator supports an extensions which is currently unsupported by this library.
     #[serde(untagged)]
     Unknown(String),
+}
+
+// See the note on `Version`: an extension identifier is a plain string as well.
+impl<'de> Deserialize<'de> for Extension {
+    fn deserialize<D>(de: D) -> Result<Self, D::Error>
+    where
+        D: serde::Deserializer<'de>,
+    {
+        let value = String::deserialize(de)?;
+        Ok(match value.as_str() {
+            "hmac-secret" => Self::HmacSecret,
+            "hmac-secret-mc" => Self::HmacSecretMakeCredential,
+            "prf" => Self::Prf,
+            _ => Self::Unknown(value),
+        })
+    }
 }
 
 #[cfg(test)]
